@@ -7,8 +7,9 @@ sys.path.insert(0, os.path.dirname(os.path.abspath(__file__)))
 from propbase import Prop            # noqa: E402,F401
 import props_c11                      # noqa: E402
 import props_values                   # noqa: E402
+import props_codec                    # noqa: E402
 
-MODULES = [props_c11, props_values]
+MODULES = [props_c11, props_values, props_codec]
 REGISTRY = {}
 
 
